@@ -53,7 +53,9 @@ class C10(vlib.Check):
                     if kind != "bit":
                         f["cnt"] = [[i, old.get(i, "3")] for i in ext]
                 case = {"t": "rt", "route": route, "fp": f, "name": rng.choice([None, "mol_1", "x y", "é"]),
-                        "props": rng.choice([{}, {"a": 1}, {"a": 1.5, "b": "s"}])}
+                        # values of every JSON-able kind, including the falsy ones and None (a property that is set to None is set)
+                        "props": rng.choice([{}, {"a": 1}, {"a": 1.5, "b": "s"}, {"act": None, "n": 0}, {"e": "", "f": False, "g": None},
+                                             {"l": [1, 2], "d": {"k": None}}])}
                 if route == "file":
                     case["ext"] = rng.choice(EXTS)
                     case["many"] = rng.choice([1, 1, 3])
@@ -73,7 +75,8 @@ class C10(vlib.Check):
         f = make_fp(case["fp"])
         if case.get("name"):
             f.name = case["name"]
-        f.update_props(case.get("props") or {})
+        for k, v in (case.get("props") or {}).items():
+            f.set_prop(k, v)             # the public setter, one property at a time
         return f
 
     def _roundtrip(self, case, f):
@@ -173,8 +176,11 @@ class C10(vlib.Check):
                 if o.name != f.name:
                     return {"key": "rt-name:%s" % r, "what": "name not preserved: %r vs %r" % (o.name, f.name)}
                 for k, v in (case.get("props") or {}).items():
-                    if o.props.get(k) != v:
-                        return {"key": "rt-props:%s" % r, "what": "property %r not preserved" % k}
+                    if k not in o.props or o.props.get(k) != v:
+                        return {"key": "rt-props:%s" % r, "what": "property %r = %r not preserved (got %r)" % (k, v, o.props.get(k, "<absent>"))}
+                extra = sorted(set(o.props) - set(f.props))
+                if extra:
+                    return {"key": "rt-props-extra:%s" % r, "what": "properties %s appeared" % extra}
         if dump_fp(f) != before:
             return {"key": "rt-mutates-source:%s" % r, "what": "source changed"}
         return None
